@@ -14,6 +14,12 @@ theorem maskedLen_ge (h : Header) (k : Nat) (mask : Option Int) : k ≤ maskedLe
   | none => exact Nat.le_max_right _ _
   | some m => simp only []; omega
 
+/-- the clear key data recovered from the two binary sections, per version -/
+def recoverDispatch (c : Ciphers) (ver : PyStr) (kbpk : Bytes) (hdr : PyStr) (enc mac : Bytes) : Bytes :=
+  if ver == [66] then bRecover c kbpk enc mac
+  else if ver == [68] then dRecover c kbpk enc mac
+  else cRecover c kbpk hdr enc mac
+
 /-- the facts established by a successful wrap -/
 structure WrapFacts (c : Ciphers) (kb : KB) (key : Bytes) (mask : Option Int) (entropy : Bytes) (s : PyStr) : Prop where
   facts : ∃ bs ml n blocks hdr enc mac clear,
@@ -25,7 +31,8 @@ structure WrapFacts (c : Ciphers) (kb : KB) (key : Bytes) (mask : Option Int) (e
     enc.length = 2 + maskedLen kb.header key.length mask + (bs - (2 + maskedLen kb.header key.length mask) % bs) ∧
     mac.length = ml ∧ clearKeyData key entropy = .ok clear ∧
     entropy.length = (bs - (2 + maskedLen kb.header key.length mask) % bs) + (maskedLen kb.header key.length mask - key.length) ∧
-    unwrapDispatch c kb.header.versionId kb.kbpk hdr enc mac = extractKey clear
+    unwrapDispatch c kb.header.versionId kb.kbpk hdr enc mac = extractKey clear ∧
+    recoverDispatch c kb.header.versionId kb.kbpk hdr enc mac = clear
 
 theorem wrap_facts (c : Ciphers) (hc : c.Lawful) (kb : KB) (key : Bytes) (mask : Option Int) (entropy : Bytes) (s : PyStr)
     (h : kb.wrap c key mask entropy = .ok s) : WrapFacts c kb key mask entropy s := by
@@ -51,12 +58,13 @@ theorem wrap_facts (c : Ciphers) (hc : c.Lawful) (kb : KB) (key : Bytes) (mask :
       · have e1 : (kb.header.versionId == [66]) = true := by rw [hB66]; rfl
         rw [if_pos e1] at h
         obtain ⟨rfl, rfl⟩ := hB hB66
-        obtain ⟨_, ⟨clear, enc, mac, hcl, hent, hel, hmac, hs, hun⟩⟩ := bWrap_out c hc kb.kbpk hdr key (m - key.length) entropy s h
+        obtain ⟨_, ⟨clear, enc, mac, hcl, hent, hel, hmac, hs, hun, hrec⟩⟩ := bWrap_out c hc kb.kbpk hdr key (m - key.length) entropy s h
         obtain ⟨hcl1, _, _⟩ := clear_len key entropy clear hcl
         rw [harith] at hent
         have henc : enc.length = 2 + m + (8 - (2 + m) % 8) := by rw [hel, hcl1, hent]; omega
         refine ⟨8, 8, n, blocks, hdr, enc, mac, clear, hbs, hml, Or.inl rfl, hbd, ?_, ?_, hs, (by rw [hm]; exact henc), hmac, hcl, (by rw [hm]; exact hent),
-          (by unfold unwrapDispatch; rw [if_pos e1]; exact hun)⟩
+          (by unfold unwrapDispatch; rw [if_pos e1]; exact hun),
+          (by unfold recoverDispatch; rw [if_pos e1]; exact hrec)⟩
         · rw [hhdr]; congr 1; rw [henc]; omega
         · rw [henc]; omega
       · have e1 : (kb.header.versionId == [66]) = false := by
@@ -66,24 +74,26 @@ theorem wrap_facts (c : Ciphers) (hc : c.Lawful) (kb : KB) (key : Bytes) (mask :
         · have e2 : (kb.header.versionId == [68]) = true := by rw [hD68]; rfl
           rw [if_pos e2] at h
           obtain ⟨rfl, rfl⟩ := hD hD68
-          obtain ⟨_, ⟨clear, enc, mac, hcl, hent, hel, hmac, hs, hun⟩⟩ := dWrap_out c hc kb.kbpk hdr key (m - key.length) entropy s h
+          obtain ⟨_, ⟨clear, enc, mac, hcl, hent, hel, hmac, hs, hun, hrec⟩⟩ := dWrap_out c hc kb.kbpk hdr key (m - key.length) entropy s h
           obtain ⟨hcl1, _, _⟩ := clear_len key entropy clear hcl
           rw [harith] at hent
           have henc : enc.length = 2 + m + (16 - (2 + m) % 16) := by rw [hel, hcl1, hent]; omega
           refine ⟨16, 16, n, blocks, hdr, enc, mac, clear, hbs, hml, Or.inr rfl, hbd, ?_, ?_, hs, (by rw [hm]; exact henc), hmac, hcl, (by rw [hm]; exact hent),
-            (by unfold unwrapDispatch; rw [if_neg (by rw [e1]; simp), if_pos e2]; exact hun)⟩
+            (by unfold unwrapDispatch; rw [if_neg (by rw [e1]; simp), if_pos e2]; exact hun),
+            (by unfold recoverDispatch; rw [if_neg (by rw [e1]; simp), if_pos e2]; exact hrec)⟩
           · rw [hhdr]; congr 1; rw [henc]; omega
           · rw [henc]; omega
         · have e2 : (kb.header.versionId == [68]) = false := by
             rw [beq_eq_false_iff_ne]; exact hD68
           rw [if_neg (by rw [e2]; simp)] at h
           obtain ⟨rfl, rfl⟩ := hAC hB66 hD68
-          obtain ⟨_, ⟨clear, enc, mac, hcl, hent, hel, hmac, hs, hun⟩⟩ := cWrap_out c hc kb.kbpk hdr key (m - key.length) entropy s h
+          obtain ⟨_, ⟨clear, enc, mac, hcl, hent, hel, hmac, hs, hun, hrec⟩⟩ := cWrap_out c hc kb.kbpk hdr key (m - key.length) entropy s h
           obtain ⟨hcl1, _, _⟩ := clear_len key entropy clear hcl
           rw [harith] at hent
           have henc : enc.length = 2 + m + (8 - (2 + m) % 8) := by rw [hel, hcl1, hent]; omega
           refine ⟨8, 4, n, blocks, hdr, enc, mac, clear, hbs, hml, Or.inl rfl, hbd, ?_, ?_, hs, (by rw [hm]; exact henc), hmac, hcl, (by rw [hm]; exact hent),
-            (by unfold unwrapDispatch; rw [if_neg (by rw [e1]; simp), if_neg (by rw [e2]; simp)]; exact hun)⟩
+            (by unfold unwrapDispatch; rw [if_neg (by rw [e1]; simp), if_neg (by rw [e2]; simp)]; exact hun),
+            (by unfold recoverDispatch; rw [if_neg (by rw [e1]; simp), if_neg (by rw [e2]; simp)]; exact hrec)⟩
           · rw [hhdr]; congr 1; rw [henc]; omega
           · rw [henc]; omega
   · rw [if_pos hv] at h; cases h
